@@ -31,6 +31,12 @@ type replayFile struct {
 	Sample    any                `json:"sample,omitempty"`
 	OrigTape  int                `json:"original_tape_len"`
 	MinExecs  int                `json:"minimiser_executions"`
+	// PreludeSeeds: the violation depends on state the code under test keeps
+	// across runs (a process-wide pool, memo or cache): it reproduces from a
+	// fresh process that first executes the runs of these seeds, in order, and
+	// then the tape. Such a replay is not minimised.
+	PreludeSeeds []uint64 `json:"prelude_seeds,omitempty"`
+	Note         string   `json:"note,omitempty"`
 }
 
 type workerOut struct {
@@ -40,6 +46,10 @@ type workerOut struct {
 	Runs         int               `json:"runs"`
 	Results      []*simkern.Result `json:"results"`
 	Replays      []string          `json:"replays"`
+	// VerifyFresh lists replay files whose violation did not reproduce inside
+	// the worker from the tape alone; the driver replays them in a fresh process
+	// (prelude included) before it believes them.
+	VerifyFresh []string `json:"verify_fresh,omitempty"`
 	HarnessError string            `json:"harness_error,omitempty"`
 	WallS        float64           `json:"wall_s"`
 	Info         map[string]any    `json:"info"`
@@ -90,6 +100,9 @@ func TestVerif(t *testing.T) {
 			fmt.Fprintln(os.Stderr, err)
 			os.Exit(2)
 		}
+		for _, ps := range rf.PreludeSeeds {
+			_ = simkern.Exec(t, prop, rf.Tier, simkern.NewSeedTape(ps), false, info.Run)
+		}
 		res := simkern.Exec(t, prop, rf.Tier, simkern.NewReplayTape(rf.Tape), true, info.Run)
 		out := map[string]any{"result": res, "expected": rf.Violation}
 		same := res.Violation != nil && rf.Violation != nil && res.Violation.Key() == rf.Violation.Key()
@@ -128,6 +141,7 @@ func TestVerif(t *testing.T) {
 	wo.Info = map[string]any{"level": info.Level, "rule": info.Rule, "real": info.Real, "stub": info.Stub,
 		"assumptions": info.Assumptions, "fault_kinds": info.FaultKinds, "exhaustive": info.Exhaustive}
 	seen := map[string]bool{}
+	extraExecs := 0 // executions other than one per seed (minimisation, re-execution)
 	for i := 0; i < count; i++ {
 		if !deadline.IsZero() && time.Now().After(deadline) {
 			break
@@ -169,10 +183,33 @@ func TestVerif(t *testing.T) {
 					final = simkern.Exec(t, prop, tier, simkern.NewReplayTape(res.Tape), true, info.Run)
 				}
 				if final.Violation == nil || final.Violation.Key() != key {
+					if extraExecs == 0 && !determinism {
+						// Nothing but the runs of seedStart..seed has executed in
+						// this process: the violation may rest on state the code
+						// under test carried over from earlier runs. A fresh process
+						// that executes those runs first and then this tape is an
+						// exact repetition of what happened here; the driver checks.
+						var prelude []uint64
+						for s := seedStart; s < seed; s++ {
+							prelude = append(prelude, s)
+						}
+						rf := replayFile{Property: prop, Tier: tier, Seed: seed, Tape: res.Tape, Violation: res.Violation, Knobs: res.Knobs,
+							Sample: res.Sample, OrigTape: len(res.Tape), PreludeSeeds: prelude,
+							Note: "did not reproduce from its tape alone inside the worker; reproduces only after the runs of prelude_seeds (state kept across runs by the code under test)"}
+						path := fmt.Sprintf("%s/%s-%d.json", replayDir, prop, seed)
+						data, _ := json.MarshalIndent(rf, "", " ")
+						_ = os.WriteFile(path, data, 0o644)
+						wo.Replays = append(wo.Replays, path)
+						wo.VerifyFresh = append(wo.VerifyFresh, path)
+						res.Tape = nil
+						wo.Results = append(wo.Results, res)
+						break
+					}
 					wo.HarnessError = fmt.Sprintf("seed %d: violation %s did not reproduce from its own tape (nondeterminism)", seed, key)
 					wo.Results = append(wo.Results, res)
 					break
 				}
+				extraExecs += execs + 2
 				rf := replayFile{Property: prop, Tier: tier, Seed: seed, Tape: final.Tape, Violation: final.Violation,
 					Knobs: final.Knobs, Trace: compactTrace(final.Trace), Sample: final.Sample, OrigTape: len(res.Tape), MinExecs: execs}
 				path := fmt.Sprintf("%s/%s-%d.json", replayDir, prop, seed)
